@@ -247,9 +247,49 @@ func runC12(tier string) int {
 			}
 		}
 	})
-	if !done {
+	// the size dimension: a poryswitch with K cases for every K up to a bound, each position, the first / middle /
+	// last case or '_' selected
+	maxK := 48
+	if tier == "thorough" {
+		maxK = 200
+	}
+	longDone := r.Parallel(uint64(maxK)*uint64(len(positions))*4, func(w int, idx uint64) {
+		which := int(idx % 4)
+		x := idx / 4
+		pos := positions[x%uint64(len(positions))]
+		k := int(x/uint64(len(positions))) + 4
+		ct := pos.contents[0]
+		var cases []string
+		for i := 0; i < k; i++ {
+			body := fill(ct.src, i)
+			if i%2 == 0 {
+				cases = append(cases, fmt.Sprintf("L%d: %s", i, body))
+			} else {
+				cases = append(cases, fmt.Sprintf("L%d {\n%s\n}", i, body))
+			}
+		}
+		cases = append(cases, "_: "+fill(ct.src, k))
+		sel := []int{0, k / 2, k - 1, k}[which]
+		v := fmt.Sprintf("L%d", sel)
+		if sel == k {
+			v = "NONE"
+		}
+		src := pos.wrap("poryswitch(V) {\n" + strings.Join(cases, "\n") + "\n}")
+		selSrc := pos.wrap(fill(ct.sel, sel))
+		o := comp.Opts{Optimize: true, Switches: map[string]string{"V": v, "W": "1"}}
+		res, ref := comp.Compile(src, o), comp.Compile(selSrc, o)
+		r.Add("evaluations", 1)
+		r.Add("nontrivial", 1)
+		r.Add("long_poryswitches", 1)
+		if res.Err != nil || ref.Err != nil || res.Panic+ref.Panic != "" || res.Out != ref.Out {
+			r.Report(harness.Violation{Sig: "C12:long:" + pos.name, Summary: fmt.Sprintf("position=%s, %d cases, V=%s: error %v / %v; output differs from the program with the selected case written out: %s", pos.name, k, v, res.Err, ref.Err, firstDiff(res.Out, ref.Out)),
+				Replay: map[string]interface{}{"position": pos.name, "source": src, "switches": o.Switches, "selected_source": selSrc, "output": res.Out, "selected_output": ref.Out}})
+		}
+	})
+	if !done || !longDone {
 		r.NotExhaustive("job list not completed")
 	}
+	r.Set("long_max_cases", maxK+3)
 	r.Set("positions", len(positions))
 	r.Set("case_label_lists", len(lists))
 	r.Assume("generator-side selection: the case whose label equals the -s value, else '_'",
@@ -257,5 +297,5 @@ func runC12(tier string) int {
 		"the selected program must itself be well-formed; case contents never contain 'continue'",
 		"line markers off; all switch keys defined; the file also defines constants named like case labels and switch values")
 	return r.Finish(r.Get("evaluations"), r.Get("nontrivial"),
-		"every poryswitch with 1-3 distinct case labels from {A, B, 1, _} in every order x colon/brace form per case x every content assignment (11-13 statement contents incl. one literal formatted under different parameters in different cases, inline texts, typed texts, labels, control flow, nested poryswitches; 8 text contents incl. typed, formatted (also one literal under three parameter sets) and multi-part; 7 movement and 6 mart contents incl. nested poryswitches, multipliers, terminators) in 8 positions (statement, in if, in loop, in inline map script, text, movement, moves(), mart) x -s value in {A, B, 1, non-matching}; output compared byte for byte with the program in which the selected case is written out; non-trivial = >= 2 cases")
+		"every poryswitch with 1-3 distinct case labels from {A, B, 1, _} in every order x colon/brace form per case x every content assignment (11-13 statement contents incl. one literal formatted under different parameters in different cases, inline texts, typed texts, labels, control flow, nested poryswitches; 8 text contents incl. typed, formatted (also one literal under three parameter sets) and multi-part; 7 movement and 6 mart contents incl. nested poryswitches, multipliers, terminators) in 8 positions (statement, in if, in loop, in inline map script, text, movement, moves(), mart) x -s value in {A, B, 1, non-matching}; plus poryswitches with K cases for every K up to the bound in the coverage in every position with the first / middle / last case or '_' selected; output compared byte for byte with the program in which the selected case is written out; non-trivial = >= 2 cases")
 }
